@@ -567,7 +567,12 @@ func atomicSwap(fr *frame, args []value) value {
 func atomicCAS(fr *frame, args []value) value {
 	fr.i.requireUnguarded("atomic cas")
 	fr.i.preempt("before atomic cas")
-	defer fr.i.preempt("after atomic cas")
+	r := atomicCAS0(fr, args)
+	fr.i.preempt("after atomic cas")
+	return r
+}
+
+func atomicCAS0(fr *frame, args []value) value {
 	p := args[0].(*value)
 	cur := *p
 	if isSym(cur) || isSym(args[1]) {
@@ -653,9 +658,15 @@ func callMethod(i *interpreter, fr *frame, recv iface, name string) value {
 
 // sync.Pool: Get nondeterministically returns any pooled object or New().
 func poolGet(fr *frame, args []value) value {
+	fr.i.requireUnguarded("Pool.Get")
+	fr.i.preempt("before Pool.Get")
+	r := poolGet0(fr, args)
+	fr.i.preempt("after Pool.Get")
+	return r
+}
+
+func poolGet0(fr *frame, args []value) value {
 	i := fr.i
-	i.requireUnguarded("Pool.Get")
-	i.preempt("before Pool.Get")
 	p := args[0].(*value)
 	items := i.pools[p]
 	if len(items) > 0 {
@@ -689,12 +700,12 @@ func poolPut(fr *frame, args []value) value {
 	i := fr.i
 	i.requireUnguarded("Pool.Put")
 	i.preempt("before Pool.Put")
-	defer i.preempt("after Pool.Put")
 	p := args[0].(*value)
 	if i.pools == nil {
 		i.pools = map[*value][]value{}
 	}
 	i.pools[p] = append(i.pools[p], args[1])
+	i.preempt("after Pool.Put")
 	return nil
 }
 
